@@ -200,7 +200,7 @@ def cutoff_case(case):
     return {"ok": True, "nt": True, "ops": k, "out": "certified" if deg else "grid-only", "extra": {"certified": int(bool(deg)), "grid": len(pts)}}
 
 
-FUNCS = {"chains": chain_case, "transcendental_pairs": chain_case, "cutoff": cutoff_case}
+FUNCS = {"chains": chain_case, "termination": chain_case, "transcendental_pairs": chain_case, "cutoff": cutoff_case}
 
 
 def chains(depth, max_trans=1):
@@ -226,6 +226,10 @@ def run(run):
               {"base": G("CNOT"), "chain": [["exp"], ["exp"]]}, {"base": G("SWAP"), "chain": [["exp"], ["power", "1/2"]]}, {"base": G("T"), "chain": [["exp"]]},
               {"base": G("Z"), "chain": [["power", "1/2"], ["power", "1/2"]]}, {"base": G("S"), "chain": [["power", "1/2"], ["exp"]]}]
     secs.append(Section("transcendental_pairs", tp, chain_case, horizon=60, chunk=1, desc="transcendental modifier applied on top of a transcendental one"))
+    term = [{"base": G("T"), "chain": c, "maxq": 2} for c in ([["exp"]], [["dagger"], ["exp"]], [["power", 2], ["exp"]], [["power", "1/2"]], [["power", "1/3"]])] + \
+           [{"base": G("S"), "chain": [["exp"]], "maxq": 2}, {"base": G("PHASE", 2.5), "chain": [["exp"]], "maxq": 2}]
+    secs.append(Section("termination", term, chain_case, horizon=90, chunk=1, horizon_is_violation=True,
+                        desc="transcendental modifiers over the phase gates whose float phases once made sympy loop forever (D17): a matrix must come back at all"))
     cc = [{"gate": n, "chain": c} for n in ("RX", "RY", "RZ", "PHASE", "CPHASE", "XX", "XY", "GPi", "GPi2")
           for c in ([["dagger"]], [["controlled", 1]], [["power", 2]], [["power", -1]], [["dagger"], ["controlled", 1]], [["controlled", 1], ["dagger"]], [["power", 2], ["dagger"]],
                     [["dagger"], ["power", 3]], [["controlled", 1], ["power", -1]], [["power", 0]], [["dagger"], ["dagger"]])]
